@@ -218,6 +218,7 @@ def sequential_stage(ctx, res, n_hist, maxlen):
     tie = None
     all_obs = []
     dup_reported = None
+    seen_kinds = set()
     for (n, a, h, mode) in cases:
         obs = C.run_history_impl(n, a, h)
         all_obs.append(obs)
@@ -242,6 +243,9 @@ def sequential_stage(ctx, res, n_hist, maxlen):
                 h, f = small, f2      # shrinking removed the duplicate: a failure without duplicates
             else:
                 continue
+        if f[0] in seen_kinds:
+            continue
+        seen_kinds.add(f[0])
         small = C.shrink_history(n, a, h, f[0])
         f2 = C.check_history(n, a, small, C.run_history_impl(n, a, small)) or f
         found = True
@@ -409,7 +413,7 @@ def run(ctx):
                         'session.valid() is an atomic query of the session owner']
     found = False
     # ---- sequential correspondence + direct oracle
-    f_seq, tie_seq = sequential_stage(ctx, res, 400 if quick else 5000, 30 if quick else 60)
+    f_seq, tie_seq = sequential_stage(ctx, res, 300 if quick else 5000, 26 if quick else 60)
     found = found or f_seq
     tie_broken = tie_broken or tie_seq
     # ---- real threads under systematic schedules (also the failing-input search when a proof broke)
